@@ -171,4 +171,7 @@ def run(ctx):
     # ---- shared ----
     ctx.borrow("C11", {"C11.R1": "C13.R4", "C11.R2": "C13.R5", "C11.R3": "C13.R6"}, "the canonical form writes the parsed schema's names: they are the specification's full names only if the parser computes, stores and resolves them per the naming rules")
 
+    c13_funcs = {"to_parsing_canonical_form", "_to_parsing_canonical_form", "fingerprint", "rabin_fingerprint"}
+    ctx.borrow("C17", {"C17.R2": "C13.R7"}, "the canonical form must be the transformation of the schema given now: a result remembered in module-level state is the form of whatever the object contained earlier", only=lambda o: o["where"].split(":")[1].split(".")[-1] in c13_funcs if ":" in o["where"] else False)
+
 
